@@ -1,24 +1,30 @@
-//! The raw locks given to happylock through its `R` type parameter. They carry no state of
-//! their own: identity is the address (looked up in the world's registry), state lives in
-//! the scheduler's owner table.
+//! The raw locks given to happylock through its `R` type parameter. Identity is the address
+//! (looked up in the world's registry) and the authoritative state lives in the scheduler's
+//! owner table; the one byte inside the lock mirrors that state (0 free, 255 exclusive, n
+//! readers), so that code which overwrites or re-initialises a raw lock instead of operating
+//! it is noticed at the next operation on it and when it is dropped.
 
 use crate::sched::{self, RawOp};
 use std::panic::resume_unwind;
+use std::sync::atomic::{AtomicU8, Ordering};
 
 /// payload of a panic injected into a raw lock operation
 #[derive(Debug)]
 pub struct RawFault;
 
 /// non-zero sized so that its address lies strictly inside the enclosing lock
-pub struct SimRawMutex(#[allow(dead_code)] u8);
-pub struct SimRawRwLock(#[allow(dead_code)] u8);
+pub struct SimRawMutex(AtomicU8);
+pub struct SimRawRwLock(AtomicU8);
 
 #[inline(never)]
-fn op(addr: usize, op: RawOp) -> bool {
+fn op(mirror: &AtomicU8, op: RawOp) -> bool {
+    let addr = mirror as *const _ as usize;
     let s = match sched::cur() {
         Some(s) => s,
         None => panic!("happysim: raw lock op {:?} with no world installed", op),
     };
+    s.check_mirror(addr, mirror.load(Ordering::Relaxed), "before an operation on it");
+    // the scheduler keeps the byte in step with the owner table when the operation takes effect
     let g = s.raw(addr, op);
     if g.panic {
         resume_unwind(Box::new(RawFault));
@@ -26,47 +32,63 @@ fn op(addr: usize, op: RawOp) -> bool {
     g.ok
 }
 
+fn dropped(mirror: &AtomicU8) {
+    if let Some(s) = sched::cur() {
+        s.check_mirror(mirror as *const _ as usize, mirror.load(Ordering::Relaxed), "when it was dropped");
+    }
+}
+impl Drop for SimRawMutex {
+    fn drop(&mut self) {
+        dropped(&self.0);
+    }
+}
+impl Drop for SimRawRwLock {
+    fn drop(&mut self) {
+        dropped(&self.0);
+    }
+}
+
 unsafe impl lock_api::RawMutex for SimRawMutex {
     #[allow(clippy::declare_interior_mutable_const)]
-    const INIT: Self = SimRawMutex(0);
+    const INIT: Self = SimRawMutex(AtomicU8::new(0));
     // the permissive choice (as in spin, or parking_lot with `send_guard`): whatever the library
     // lets safe code do with guards of such locks is part of what is simulated
     type GuardMarker = lock_api::GuardSend;
 
     fn lock(&self) {
-        op(self as *const _ as usize, RawOp::Lock);
+        op(&self.0, RawOp::Lock);
     }
     fn try_lock(&self) -> bool {
-        op(self as *const _ as usize, RawOp::TryLock)
+        op(&self.0, RawOp::TryLock)
     }
     unsafe fn unlock(&self) {
-        op(self as *const _ as usize, RawOp::Unlock);
+        op(&self.0, RawOp::Unlock);
     }
 }
 
 unsafe impl lock_api::RawRwLock for SimRawRwLock {
     #[allow(clippy::declare_interior_mutable_const)]
-    const INIT: Self = SimRawRwLock(0);
+    const INIT: Self = SimRawRwLock(AtomicU8::new(0));
     // the permissive choice (as in spin, or parking_lot with `send_guard`): whatever the library
     // lets safe code do with guards of such locks is part of what is simulated
     type GuardMarker = lock_api::GuardSend;
 
     fn lock_shared(&self) {
-        op(self as *const _ as usize, RawOp::LockShared);
+        op(&self.0, RawOp::LockShared);
     }
     fn try_lock_shared(&self) -> bool {
-        op(self as *const _ as usize, RawOp::TryLockShared)
+        op(&self.0, RawOp::TryLockShared)
     }
     unsafe fn unlock_shared(&self) {
-        op(self as *const _ as usize, RawOp::UnlockShared);
+        op(&self.0, RawOp::UnlockShared);
     }
     fn lock_exclusive(&self) {
-        op(self as *const _ as usize, RawOp::LockExcl);
+        op(&self.0, RawOp::LockExcl);
     }
     fn try_lock_exclusive(&self) -> bool {
-        op(self as *const _ as usize, RawOp::TryLockExcl)
+        op(&self.0, RawOp::TryLockExcl)
     }
     unsafe fn unlock_exclusive(&self) {
-        op(self as *const _ as usize, RawOp::UnlockExcl);
+        op(&self.0, RawOp::UnlockExcl);
     }
 }
